@@ -64,6 +64,12 @@ def run_meaning(case):
 
     if abs(f(v0, *p) - e0) > 1e-12 * max(1, abs(e0)):
         return fail("E0", "E(V0) = %r" % f(v0, *p))
+    from vtk.ref import eos as RE
+
+    vv = v0 * np.array([0.8, 0.93, 1.0, 1.07, 1.25])
+    dev = np.abs(f(vv, *p) - RE.EOS[case["eos"]](vv, *p)).max()
+    if dev > 1e-10 * max(1.0, b0 * v0):
+        return fail("formula", "get_eos(%r) differs from the %s equation of state by %.3g eV" % (case["eos"], case["eos"], dev))
     d1 = np.imag(f(v0 + 1e-30j, *p)) / 1e-30
     if abs(d1) > 1e-12 * b0:
         return fail("pressure-at-V0", "dE/dV(V0) = %r" % d1)
@@ -92,10 +98,12 @@ def vgrid(v0, npts, spacing, off):
 def run_fit(case):
     from phonopy.qha.eos import EOSFit, fit_to_eos, get_eos
 
+    from vtk.ref import eos as RE
+
     f = get_eos(case["eos"])
     p = np.array(case["p"], float)
     V = vgrid(p[3], case["npts"], case["spacing"], case["off"])
-    E = f(V, *p)
+    E = RE.EOS[case["eos"]](V, *p)
     nontriv = bool(case["off"] != 0 or case["spacing"] == "a")
     try:
         got = np.array(fit_to_eos(V, E, f))
@@ -141,7 +149,9 @@ def run_qha(case):
     from phonopy.qha.eos import get_eos
     from phonopy.units import EVAngstromToGPa, EvTokJmol
 
-    f = get_eos(case["eos"])
+    from vtk.ref import eos as RE
+
+    f = RE.EOS[case["eos"]]
     if case["grid"] == "uniform":
         T = np.arange(0.0, 1001.0, 50.0)
     else:
